@@ -42,7 +42,19 @@ def cases(tier, seed):
         out.append(dict(kind='mach', model=model, flow=flow, mach=mach, seed=seed))
     for model, flow, ci, nst in itertools.product(['plate', 'cpanel'], ['x', 'y'], [0, 3, 4], [0, 1]):
         out.append(dict(kind='bay', model=model, flow=flow, coef=ci, nstiff=nst, seed=seed))
+    # bays with coefficients derived from Mach number, density, speed and speed of sound (also mutually inconsistent data: the
+    # documented formulas use each quantity where it is written)
+    for model, flow, air in itertools.product(['plate', 'cpanel'], ['x', 'y'], range(len(AIR))):
+        out.append(dict(kind='baymach', model=model, flow=flow, air=air, seed=seed))
+    # the same Panel object evaluated under another definition first (edge restraints / geometry / orders changed in between)
+    for model, flow, redef, ci in itertools.product(['plate', 'plate_w', 'cpanel'], ['x', 'y'], ['rotflags', 'geom', 'orders', 'flow', 'r'], [0, 3]):
+        if redef == 'r' and model != 'cpanel':
+            continue
+        out.append(dict(kind='redef', model=model, flow=flow, redef=redef, coef=ci, geom='g1', pat='SSSS', m=4, n=4, seed=seed))
     return out
+
+
+AIR = [(2.0, 1.225, 680.0, 340.0), (1.3, 1.225, 680.0, 340.0), (1.7, 0.4, 500.0, 300.0), (3.0, 0.9, 700.0, 295.0), (1.0, 1.0, 400.0, 330.0)]
 
 
 def build(case, fl):
@@ -219,8 +231,86 @@ def check_bay(case):
     return dict(fails=fails, execs=2, transitions=2, nontrivial=1)
 
 
+def check_baymach(case):
+    from compmech.stiffpanelbay import StiffPanelBay
+    fails = []
+    M, rho, V, ainf = AIR[case['air']]
+    spb = StiffPanelBay()
+    spb.a, spb.b, spb.m, spb.n = 2.0, 1.0, 4, 5
+    if case['model'] == 'cpanel':
+        spb.r = 3.0
+    spb.stack, spb.plyt, spb.laminaprop, spb.mu = [0, 90, 90, 0], pan.PLYT, pan.M6, 1500.
+    spb.flow = case['flow']
+    spb.beta = None
+    spb.Mach, spb.rho_air, spb.V, spb.speed_sound = M, rho, V, ainf
+    spb.add_panel(y1=0, y2=0.4)
+    spb.add_panel(y1=0.4, y2=1.0)
+    spb.calc_k0(silent=True)
+    Me = 1.0001 if M == 1.0 else M
+    beta = rho * V ** 2 / np.sqrt(Me ** 2 - 1)
+    gamma = beta / (2 * 3.0 * np.sqrt(Me ** 2 - 1)) if (case['model'] == 'cpanel' and case['flow'] == 'x') else 0.0
+    aeromu = beta / (Me * ainf) * (Me ** 2 - 2) / (Me ** 2 - 1)
+    ref = pan.rp.PanelRef(2.0, 1.0, 4, 5, pan.rp.default_flags(), r=3.0 if case['model'] == 'cpanel' else None)
+    size = spb.get_size()
+    for order in (('kA', 'cA'), ('cA', 'kA')):
+        for nm in order:
+            try:
+                if nm == 'kA':
+                    K = pan.dense(spb.calc_kA(silent=True))
+                    Kr = np.zeros((size, size)); Kr[:ref.size, :ref.size] = ref.kA(beta, gamma, case['flow'])
+                    if np.abs(K - Kr).max() > 1e-11 * np.abs(Kr).max():
+                        fails.append(fail('bay kA with coefficients derived from Mach, density and speed does not follow the piston-theory formulas',
+                                          sig=None, case=case, rel=float(np.abs(K - Kr).max() / np.abs(Kr).max())))
+                else:
+                    C = pan.dense(spb.calc_cA(silent=True))
+                    Cr = np.zeros((size, size), dtype=complex); Cr[:ref.size, :ref.size] = ref.cA(aeromu)
+                    if np.abs(C - Cr).max() > 1e-11 * (np.abs(Cr).max() + 1e-300):
+                        fails.append(fail('bay cA with the damping coefficient derived from Mach, density, speed and speed of sound is not '
+                                          '-i*aeromu*Int(w_A w_B) with aeromu = beta/(Mach*a_inf)*(Mach^2-2)/(Mach^2-1)', sig=None, case=case,
+                                          rel=float(np.abs(C - Cr).max() / (np.abs(Cr).max() + 1e-300))))
+            except Exception as e:
+                fails.append(fail('bay %s with derived coefficients raised' % nm, sig=None, case=case, error=repr(e)[:300]))
+        if fails:
+            break
+    return dict(fails=fails[:4], execs=4, transitions=4, nontrivial=1)
+
+
+def check_redef(case):
+    """History on one Panel object: evaluate kA / cA under a neighbouring definition, change the definition, evaluate again."""
+    fails = []
+    fl = flags_for(case['pat'], case['flow'], case['seed'])
+    p, ref, cfg = build(case, fl)
+    beta, gamma, aeromu = COEFS[case['coef']]
+    gamma_eff = gamma if (case['model'] == 'cpanel' and case['flow'] == 'x') else 0.0
+    # first definition
+    first = dict(rotflags={'w1r' + case['flow']: 0.0, 'w2r' + case['flow']: 0.0, 'w1r' + ('y' if case['flow'] == 'x' else 'x'): 0.0},
+                 geom=dict(a=cfg['a'] * 1.3, b=cfg['b'] * 0.8), orders=dict(m=cfg['m'] + 1, n=cfg['n'] - 1),
+                 flow=dict(flow='y' if case['flow'] == 'x' else 'x'), r=dict(r=1.1))[case['redef']]
+    saved = {k: getattr(p, k) for k in first}
+    for k, v in first.items():
+        setattr(p, k, v)
+    p.beta, p.gamma = beta, gamma
+    p.calc_k0(silent=True)
+    p.calc_kA(silent=True)
+    p.calc_cA(aeromu, silent=True)
+    for k, v in saved.items():
+        setattr(p, k, v)
+    p.calc_k0(silent=True)
+    K = pan.dense(p.calc_kA(silent=True))
+    p.calc_cA(aeromu, silent=True)
+    C = pan.dense(p.cA)
+    Kr, Cr = ref.kA(beta, gamma_eff, case['flow']), ref.cA(aeromu)
+    if K.shape != Kr.shape or np.abs(K - Kr).max() > 1e-11 * np.abs(Kr).max():
+        fails.append(fail('kA of a re-used Panel object whose definition ("%s") was changed after an earlier evaluation differs from the '
+                          'piston-theory form of the current definition' % case['redef'], sig=None, case=case))
+    if C.shape != Cr.shape or np.abs(C - Cr).max() > 1e-11 * np.abs(Cr).max():
+        fails.append(fail('cA of a re-used Panel object whose definition ("%s") was changed after an earlier evaluation differs from '
+                          '-i*aeromu*Int(w_A w_B) of the current definition' % case['redef'], sig=None, case=case))
+    return dict(fails=fails, execs=6, transitions=2, nontrivial=1)
+
+
 def check_case(case):
-    return dict(panel=check_panel, mach=check_mach, bay=check_bay)[case['kind']](case)
+    return dict(panel=check_panel, mach=check_mach, bay=check_bay, baymach=check_baymach, redef=check_redef)[case['kind']](case)
 
 
 def summarize(results, tier, seed):
